@@ -32,6 +32,17 @@ TimedTaskScheduler::~TimedTaskScheduler() {
 
 void TimedTaskScheduler::kickOffTask(std::shared_ptr<detail::TimedTaskImpl> next, double curTime) {
   size_t remaining = next->timesToRun.fetch_sub(1, std::memory_order_acq_rel);
+  if (remaining >= 1) {
+    // Announce the invocation before func is touched at all.  ~TimedTask sets the cancelled flag and
+    // then waits for inProgress to reach zero before it destroys func; calling func (reading the
+    // std::function) before the count is raised let a destruction free it under this thread.
+    // seq_cst on both sides: either we see the flag, or the destructor sees our increment.
+    next->inProgress.fetch_add(1, std::memory_order_seq_cst);
+    if (next->flags.load(std::memory_order_seq_cst) & detail::kFFlagsCancelled) {
+      next->inProgress.fetch_sub(1, std::memory_order_release);
+      return;
+    }
+  }
   if (remaining == 1) {
     auto* np = next.get();
     np->func(std::move(next));
